@@ -78,6 +78,22 @@ func c06Dealer(g *gen.G, n, t int, seed, msg []byte, tag string, pkChecks int) *
 			}
 		}
 	}
+	if t <= 12 {
+		// the coefficients of the sharing polynomial, recovered from t+1 shares: a uniformly random polynomial has a zero
+		// or a repeated coefficient with probability about (t+1)^2 / 2^255, so a coefficient that is zero or equal to
+		// another one means the polynomial is not the random polynomial the documentation promises
+		coefs := fr.Interpolate(nodes, s.xs[:t+1])
+		for i, c := range coefs {
+			if c.Sign() == 0 {
+				g.Fatalf("BLSThresholdKeyGen(%d, %d): coefficient a_%d of the sharing polynomial is zero (the polynomial is not random)", n, t, i)
+			}
+			for j := 0; j < i; j++ {
+				if coefs[j].Cmp(c) == 0 {
+					g.Fatalf("BLSThresholdKeyGen(%d, %d): coefficients a_%d and a_%d of the sharing polynomial are equal (the polynomial is not random)", n, t, j, i)
+				}
+			}
+		}
+	}
 	l0 := fr.LagrangeAtZero(nodes)
 	s.secret = new(big.Int)
 	for j := range l0 {
